@@ -2271,6 +2271,29 @@ func (b transportResponseBody) Close() error {
 	return nil
 }
 
+// returnDiscardedData returns the connection-level flow control of a DATA
+// frame that is discarded without reaching a response body.
+func (rl *clientConnReadLoop) returnDiscardedData(f *DataFrame) error {
+	if f.Length == 0 {
+		return nil
+	}
+	cc := rl.cc
+	cc.mu.Lock()
+	ok := cc.inflow.take(f.Length)
+	connAdd := cc.inflow.add(int(f.Length))
+	cc.mu.Unlock()
+	if !ok {
+		return ConnectionError(ErrCodeFlowControl)
+	}
+	if connAdd > 0 {
+		cc.wmu.Lock()
+		cc.fr.WriteWindowUpdate(0, uint32(connAdd))
+		cc.bw.Flush()
+		cc.wmu.Unlock()
+	}
+	return nil
+}
+
 func (rl *clientConnReadLoop) processData(f *DataFrame) error {
 	cc := rl.cc
 	cs := rl.streamByID(f.StreamID, headerOrDataFrame)
@@ -2290,22 +2313,7 @@ func (rl *clientConnReadLoop) processData(f *DataFrame) error {
 		// by the peer? Tough without accumulating too much state.
 
 		// But at least return their flow control:
-		if f.Length > 0 {
-			cc.mu.Lock()
-			ok := cc.inflow.take(f.Length)
-			connAdd := cc.inflow.add(int(f.Length))
-			cc.mu.Unlock()
-			if !ok {
-				return ConnectionError(ErrCodeFlowControl)
-			}
-			if connAdd > 0 {
-				cc.wmu.Lock()
-				cc.fr.WriteWindowUpdate(0, uint32(connAdd))
-				cc.bw.Flush()
-				cc.wmu.Unlock()
-			}
-		}
-		return nil
+		return rl.returnDiscardedData(f)
 	}
 	if cs.readClosed {
 		cc.logf("protocol error: received DATA after END_STREAM")
@@ -2313,7 +2321,7 @@ func (rl *clientConnReadLoop) processData(f *DataFrame) error {
 			StreamID: f.StreamID,
 			Code:     ErrCodeProtocol,
 		})
-		return nil
+		return rl.returnDiscardedData(f)
 	}
 	if !cs.pastHeaders {
 		cc.logf("protocol error: received DATA before a HEADERS frame")
@@ -2321,7 +2329,7 @@ func (rl *clientConnReadLoop) processData(f *DataFrame) error {
 			StreamID: f.StreamID,
 			Code:     ErrCodeProtocol,
 		})
-		return nil
+		return rl.returnDiscardedData(f)
 	}
 	if f.Length > 0 {
 		if cs.isHead && len(data) > 0 {
@@ -2330,7 +2338,7 @@ func (rl *clientConnReadLoop) processData(f *DataFrame) error {
 				StreamID: f.StreamID,
 				Code:     ErrCodeProtocol,
 			})
-			return nil
+			return rl.returnDiscardedData(f)
 		}
 		// Check connection-level flow control.
 		cc.mu.Lock()
